@@ -170,6 +170,35 @@ structure Pal where
   deriving DecidableEq, Repr
 
 abbrev EnumCache := List ((Addr × Nat) × List Color)
+abbrev ResId := Nat
+abbrev IterId := Nat
+
+/-- one generated line of a lazily produced text: the sub-palettes the generator asks for
+(`get_sub_palette`) since the previous line, and the line -/
+structure LLine where
+  reqs : List ClassId
+  line : SLine
+  deriving Repr
+
+/-- `CHTextResult(ppobj, cp)`: the object (its lines), the palette object made when the result was
+requested, and the memoised whole text (`_ch_text`) -/
+structure Res where
+  p : Addr
+  conf : ConfId
+  top : ClassId
+  nc : Bool
+  lines : List LLine
+  memo : Option (List Chunk)
+  deriving Repr
+
+/-- a suspended generator `ppobj.gen_ch_lines(cp)`: the palette and the lines not yet generated -/
+structure Iter where
+  p : Addr
+  conf : ConfId
+  top : ClassId
+  nc : Bool
+  rest : List LLine
+  deriving Repr
 
 structure State where
   confs : List (ConfId × Conf)
@@ -182,6 +211,10 @@ structure State where
   enums : List (EnumId × EnumCache)
   /-- attributes of the synced `global_palette` -/
   gp : List Color
+  /-- lazy results (`CHTextResult`) the program holds -/
+  results : List (ResId × Res)
+  /-- line iterators (`iter(result)`: suspended `gen_ch_lines` generators) the program holds -/
+  iters : List (IterId × Iter)
   deriving Repr
 
 abbrev Alloc := List Addr → Addr
@@ -349,6 +382,57 @@ def render (cfg : Cfg) (alloc : Alloc) (k : ConfId) (nc : Bool) (sh : Shape) (s 
   let lines ← colorLines s2 p sh.top sh.lines
   .ok (sh.tags.foldl (fun st t => fillOne st p t) s2, lines)
 
+/-! ### lazy results -/
+
+/-- the generator produces one more line: the sub-palettes are requested now, the cells are taken
+from / put into the enum cell cache now -/
+def stepLine (cfg : Cfg) (alloc : Alloc) (p : Addr) (top : ClassId) (l : LLine) (s : State) :
+    Except Err (State × List Chunk) := do
+  let s1 ← getSubs cfg alloc p l.reqs s
+  let cs ← colorChunks s1 p top l.line.chunks
+  .ok ((l.line.chunks.map (·.tag)).foldl (fun st t => fillOne st p t) s1,
+       match l.line.kind with | .raw => cs | .made => mergeAdj cs)
+
+def stepLines (cfg : Cfg) (alloc : Alloc) (p : Addr) (top : ClassId) : List LLine → State →
+    Except Err (State × List (List Chunk))
+  | [], s => .ok (s, [])
+  | l :: rest, s => do
+    let (s1, out) ← stepLine cfg alloc p top l s
+    let (s2, outs) ← stepLines cfg alloc p top rest s1
+    .ok (s2, out :: outs)
+
+/-- `r = obj.ch_text(no_color=nc, colors_conf=k)`: only the palette is made now -/
+def mkRes (cfg : Cfg) (alloc : Alloc) (r : ResId) (k : ConfId) (nc : Bool) (top : ClassId) (lines : List LLine)
+    (s : State) : Except Err State := do
+  let (s1, p) ← mkPalette cfg alloc top k nc s
+  .ok { s1 with results := (r, ⟨p, k, top, nc, lines, none⟩) :: s1.results.filter fun x => x.1 ≠ r }
+
+/-- `str(r)`: the text is made at the first request and memoised -/
+def strRes (cfg : Cfg) (alloc : Alloc) (r : ResId) (s : State) : Except Err (State × List Chunk) :=
+  match s.results.lookup r with
+  | none => .error .keyError
+  | some res =>
+    match res.memo with
+    | some w => .ok (s, w)
+    | none => do
+      let (s1, ls) ← stepLines cfg alloc res.p res.top res.lines s
+      let w := wholeOf '\n' ls
+      .ok ({ s1 with results := (r, { res with memo := some w }) :: s1.results.filter fun x => x.1 ≠ r }, w)
+
+/-- `it = iter(r)`: a new generator, nothing runs yet -/
+def mkIter (i : IterId) (r : ResId) (s : State) : Except Err State :=
+  match s.results.lookup r with
+  | none => .error .keyError
+  | some res => .ok { s with iters := (i, ⟨res.p, res.conf, res.top, res.nc, res.lines⟩) :: s.iters.filter fun x => x.1 ≠ i }
+
+/-- `[next(it) for _ in range(n)]` (fewer when the generator is exhausted) -/
+def nextIter (cfg : Cfg) (alloc : Alloc) (i : IterId) (n : Nat) (s : State) : Except Err (State × List (List Chunk)) :=
+  match s.iters.lookup i with
+  | none => .error .keyError
+  | some it => do
+    let (s1, outs) ← stepLines cfg alloc it.p it.top (it.rest.take n) s
+    .ok ({ s1 with iters := (i, { it with rest := it.rest.drop n }) :: s1.iters.filter fun x => x.1 ≠ i }, outs)
+
 /-! ### configurations -/
 
 def emptyConf (nc : Bool) : Conf := ⟨nc, [], [], [], false⟩
@@ -409,6 +493,8 @@ def gcOk (cfg : Cfg) (s : State) (keepP : List Addr) (keepC : List ConfId) : Boo
   && s.heap.all (fun e => !keepP.contains e.1 || keepC.contains e.2.conf)
   && s.subs.all (fun e => !keepP.contains e.1.1 || keepP.contains e.2)
   && s.confs.all (fun e => !keepC.contains e.1 || e.2.cache.all fun ce => keepP.contains ce.2)
+  && s.results.all (fun e => keepP.contains e.2.p)
+  && s.iters.all (fun e => keepP.contains e.2.p)
 
 def gc (cfg : Cfg) (keepP : List Addr) (keepC : List ConfId) (s : State) : State :=
   if gcOk cfg s keepP keepC then
@@ -427,6 +513,10 @@ inductive Op where
   | newEnum (e : EnumId)
   | dropEnum (e : EnumId)
   | render (k : ConfId) (nc : Bool) (sh : Shape)
+  | mkRes (r : ResId) (k : ConfId) (nc : Bool) (top : ClassId) (lines : List LLine)
+  | strRes (r : ResId)
+  | mkIter (i : IterId) (r : ResId)
+  | nextIter (i : IterId) (n : Nat)
 
 /-- an operation that raises leaves the state as it was -/
 def step (cfg : Cfg) (alloc : Alloc) (s : State) : Op → State
@@ -437,10 +527,14 @@ def step (cfg : Cfg) (alloc : Alloc) (s : State) : Op → State
   | .newEnum e => match newEnum e s with | .ok s' => s' | .error _ => s
   | .dropEnum e => dropEnum e s
   | .render k nc sh => match render cfg alloc k nc sh s with | .ok (s', _) => s' | .error _ => s
+  | .mkRes r k nc top lines => match mkRes cfg alloc r k nc top lines s with | .ok s' => s' | .error _ => s
+  | .strRes r => match strRes cfg alloc r s with | .ok (s', _) => s' | .error _ => s
+  | .mkIter i r => match mkIter i r s with | .ok s' => s' | .error _ => s
+  | .nextIter i n => match nextIter cfg alloc i n s with | .ok (s', _) => s' | .error _ => s
 
 def run (cfg : Cfg) (alloc : Alloc) (s : State) (ops : List Op) : State := ops.foldl (step cfg alloc) s
 
-def emptyState : State := ⟨[], [], 0, [], [], [], [], []⟩
+def emptyState : State := ⟨[], [], 0, [], [], [], [], [], [], []⟩
 
 /-- fresh interpreter: the global configuration (number 0) is `ColorsConfig()`, `global_palette` synced -/
 def initState (cfg : Cfg) : State :=
@@ -465,7 +559,8 @@ def closeIter (cfg : Cfg) (s : State) : Nat → List Addr → List ConfId → Li
 
 /-- what the program still refers to directly -/
 def roots (cfg : Cfg) (s : State) : List Addr × List ConfId :=
-  ((s.ncCache.map (·.2) ++ (if cfg.keyByObj then s.enums.flatMap fun e => e.2.map fun en => en.1.1 else [])).eraseDups,
+  ((s.ncCache.map (·.2) ++ s.results.map (·.2.p) ++ s.iters.map (·.2.p)
+      ++ (if cfg.keyByObj then s.enums.flatMap fun e => e.2.map fun en => en.1.1 else [])).eraseDups,
    (s.global :: s.held).eraseDups)
 
 /-- `gc.collect()`: keep exactly what is reachable -/
